@@ -156,6 +156,21 @@ def execute(sc):
     vms = {}
     models = {}
     fnames = {f["name"]: f for f in prog["functions"]}
+
+    def unset_view(vm, name):
+        try:
+            return ["value", jsonable(vm.GetGlobal(name))]
+        except Exception as e:
+            return ["raises", type(e).__name__]
+
+    # baseline: what a VM of a program nobody has touched shows for never-set globals
+    baseline = None
+    if any(o[0] == "get0" for o in sc["ops"]):
+        lk0 = LinearIR.Linker()
+        lk0.AddModule(module)
+        v0 = VM.VirtualMachine(lk0.Link())
+        baseline = {n: unset_view(v0, n) for n, _t in prog["globals"]}
+        del v0
     cancel = sc.get("cancel")  # probe P1: {op index: line-event number}
 
     for i, op in enumerate(sc["ops"]):
@@ -172,6 +187,20 @@ def execute(sc):
             continue
         if v not in vms:
             continue  # (shrunk scenarios) operation on a VM that no longer exists
+        if kind == "get0":
+            if op[2] in models[v].g or baseline is None or op[2] not in baseline:
+                continue
+            got = unset_view(vms[v], op[2])
+            log.add("get0", vm=v, name=op[2], view=got)
+            bump("unset_global_views")
+            if got != baseline[op[2]]:
+                return done(
+                    "violation",
+                    "isolation-initial",
+                    f"op {i}: the never-set global {op[2]} of the newly created vm{v} shows {got}, a VM of an untouched "
+                    f"program shows {baseline[op[2]]}",
+                )
+            continue
         if kind == "abandon":
             del vms[v]
             del models[v]
